@@ -20,7 +20,7 @@ RULE = ("(encoder level, exhaustive) for eco-mode v1 and v2 groups x every prior
 ASSUMPTIONS = ["v1 groups carry no SoC and encode_discharge takes none: SoC is asserted for v2 ECO_CHARGE only",
                "a limit whose encoding is the all-ones 'no value' sentinel (65535) is outside the readable domain",
                "a setter that raises (e.g. ES with undecodable prior eco registers) has not 'succeeded': nothing is asserted then"]
-MUST = ["limits_kept_across_mode_change", "eco_group_type_checked", "prior_group_fulltime_but_off", "prior_group_typed_with_undecodable_tail", "single_sensor_reads_before_setters", "roundtrips_in_each_mode", "background_poller_during_setters", "same_mode_repeated", "setter_with_refused_write", "polls_between_setters", "encoder_roundtrips", "mode_roundtrips", "eco_charge_checked", "eco_discharge_checked", "groups_off_checked",
+MUST = ["group_inspected_after_other_getters", "mode_setter_repeated_after_failed_attempt", "limits_kept_across_mode_change", "eco_group_type_checked", "prior_group_fulltime_but_off", "prior_group_typed_with_undecodable_tail", "single_sensor_reads_before_setters", "roundtrips_in_each_mode", "background_poller_during_setters", "same_mode_repeated", "setter_with_refused_write", "polls_between_setters", "encoder_roundtrips", "mode_roundtrips", "eco_charge_checked", "eco_discharge_checked", "groups_off_checked",
         "export_limit_roundtrips", "dod_roundtrips", "prior_nonempty_types", "es_modes", "et_745", "et_v1"]
 EXHAUSTIVE = {"quick": False, "thorough": False}
 
@@ -284,6 +284,15 @@ def e2e_part(spec, part):
                     continue
                 if m in (OM.ECO_CHARGE, OM.ECO_DISCHARGE):
                     g1 = await inv.read_setting("eco_mode_1")
+                    if rnd.random() < 0.5:
+                        # (the application looks at other things first: what it was handed must still decode to what was set)
+                        try:
+                            await inv.get_ongrid_battery_dod()
+                            await inv.get_grid_export_limit()
+                            await inv.read_settings_data()
+                        except (ValueError, g.InverterError):
+                            pass
+                        part.count("group_inspected_after_other_getters")
                     want_p = -p if m == OM.ECO_CHARGE else p
                     part.count("eco_charge_checked" if m == OM.ECO_CHARGE else "eco_discharge_checked")
                     if g1.get_power() != want_p:
@@ -371,6 +380,38 @@ def e2e_part(spec, part):
                             part.violate(f"C19/{fam}/refused-write-reported-as-success",
                                          f"{tagtxt}: the inverter refused the write to register {reg}, {setter.__name__}({val}) returned normally and the "
                                          f"getter returns {got}", case)
+            # a mode setter whose work-mode write is refused (or lost), then the application simply calls the same setter again: the
+            # second call has to do the whole job - whatever the first one left behind in the object
+            if fam == "ET":
+                for m2 in rnd.sample([OM.GENERAL, OM.BACKUP, OM.OFF_GRID, OM.ECO], 2):
+                    code_now = sim.get(47000)
+                    sim.regs[47000] = {0: 2, 1: 0, 2: 0, 3: 0}.get(code_now, 0) if rnd.random() < 0.7 else code_now
+                    if rnd.random() < 0.5:
+                        sim.exc_map[(6, 47000)] = rnd.choice((6, 4))
+                    else:
+                        sim.silent_regs = {47000}
+                    try:
+                        await inv.set_operation_mode(m2)
+                        first_failed = False
+                    except (g.InverterError, ValueError):
+                        first_failed = True
+                    sim.exc_map.pop((6, 47000), None)
+                    sim.silent_regs = set()
+                    if not first_failed:
+                        continue
+                    try:
+                        await inv.set_operation_mode(m2)
+                        got = await inv.get_operation_mode()
+                    except ValueError:
+                        continue        # (group 1 still holds undecodable prior content: the getter's documented ValueError)
+                    except Exception as e:      # noqa
+                        part.violate(f"C19/{fam}/run-failed/{type(e).__name__}", f"{tagtxt}: set_operation_mode({m2.name}) repeated after a failed attempt: {e!r}", case)
+                        continue
+                    part.count("mode_setter_repeated_after_failed_attempt")
+                    if got != m2 and not (m2 == OM.ECO and got in (OM.ECO_CHARGE, OM.ECO_DISCHARGE) and group1_fulltime()):
+                        part.violate(f"C19/{fam}/mode-roundtrip/{m2.name}",
+                                     f"{tagtxt}: set_operation_mode({m2.name}) failed (work-mode write refused / lost), the same call repeated succeeded, "
+                                     f"yet get_operation_mode() = {got.name if got is not None else None} (work-mode register holds {sim.get(47000)})", case)
             # export limit and DoD
             for x in [0, 1, 100, 4999, 10000, 65534] + [rnd.randrange(0, 65535) for _ in range(4)]:
                 await inv.set_grid_export_limit(x)
